@@ -247,7 +247,7 @@ def strat_case(draw):
         else:
             cmd = draw(argv_gen.deterministic_numeric_command())
         chain = draw(argv_gen.tchain(max_len=2, allow_expanding=cmd[0] not in argv_gen.WIDE)) if tool == 'cnfgen' else []
-        out = draw(st.sampled_from(argv_gen.OUTPUT_OPTS + [['-o', '@OUT'], ['-o', '@OUT.tex'], ['-o', '@OUT.opb'], ['-o', '@DIR'], ['-h'], ['--help-graph']]))
+        out = draw(st.sampled_from(argv_gen.OUTPUT_OPTS + [['-o', '@OUT'], ['-o', '@OUT.tex'], ['-o', '@OUT.opb'], ['-o', '@DIR'], ['-o', '@NODIR/out.cnf'], ['-h'], ['--help-graph']]))
         if tool == 'pbgen':
             out = [] if ('dimacs' in out) else out
         seed = ['--seed', str(draw(st.integers(0, 99)))] if draw(st.booleans()) else []
@@ -278,7 +278,8 @@ def strat_case(draw):
                     args[i:j] = fmtk + ['@FILE:' + fk]
             elif m == 'save':
                 args += draw(st.sampled_from([['save'], ['save', '@DIR'], ['save', '@SAVE.kthlist'], ['save', 'gml', '@SAVE.x'],
-                                              ['save', '@SAVE.zzz'], ['save', 'matrix', '@SAVE.m'], ['save', '@SAVE.gml', 'save', '@SAVE.dot']]))
+                                              ['save', '@SAVE.zzz'], ['save', 'matrix', '@SAVE.m'], ['save', '@SAVE.gml', 'save', '@SAVE.dot'],
+                                              ['save', '@NODIR/g.gml'], ['save', 'kthlist', '@NODIR/g'], ['save', '@NODIR/g.dot'], ['save', 'matrix', '@NODIR/g.matrix']]))
             elif m == 'swap':
                 idx = [i for i, t in enumerate(args) if t in ('gnp', 'gnm', 'gnd', 'complete', 'grid')]
                 if idx:
@@ -317,6 +318,8 @@ def materialize(args, d):
             p = os.path.join(d, 'adir')
             os.makedirs(p, exist_ok=True)
             out.append(p)
+        elif a.startswith('@NODIR/'):
+            out.append(os.path.join(d, 'no_such_dir', a[7:]))        # a place that cannot be written: its directory does not exist
         elif a.startswith('@OUT'):
             out.append(os.path.join(d, 'out' + a[4:]))
         elif a.startswith('@SAVE'):
@@ -576,7 +579,7 @@ TOOLS = ['cnfgen', 'pbgen', 'cnfshuffle', 'kthlist2pebbling']
 
 SUBCHECKS = [
     SubCheck('hostile', run_case, strategy=strat_case, quick=3000, thorough=150000,
-             rule="valid command lines of every sub-command (graph constructions, numeric forms, -T chains, every output option, -o into files and directories) with 0..3 mutations: numbers replaced by -1/0/1/2/3/5/6/x/1.5/empty, tokens deleted/duplicated, unknown options, graph constructions replaced by missing/directory/empty/garbage/wrong-format/binary/unreadable files with every format keyword, 'save' into bad places, constructions of the wrong graph type, extra tokens, -h anywhere; cnfshuffle and kthlist2pebbling with option soups and good/garbage stdin; oracle: exactly one of {exit 0 + complete document accepted by the strict reader of the format, help + exit 0, non-zero exit + empty stdout + non-empty stderr with every line starting with the comment marker}; never an escaping exception or traceback; non-trivial: the argv names a sub-command",
+             rule="valid command lines of every sub-command (graph constructions, numeric forms, -T chains, every output option, -o into files and directories) with 0..3 mutations: numbers replaced by -1/0/1/2/3/5/6/x/1.5/empty, tokens deleted/duplicated, unknown options, graph constructions replaced by missing/directory/empty/garbage/wrong-format/binary/unreadable files with every format keyword, 'save' into bad places (a directory, a directory that does not exist, unknown extensions), constructions of the wrong graph type, extra tokens, -h anywhere; cnfshuffle and kthlist2pebbling with option soups and good/garbage stdin; oracle: exactly one of {exit 0 + complete document accepted by the strict reader of the format, help + exit 0, non-zero exit + empty stdout + non-empty stderr with every line starting with the comment marker}; never an escaping exception or traceback; non-trivial: the argv names a sub-command",
              required_labels=TOOLS + ['success', 'clean-error', 'help', 'bad-file', 'directory-argument']),
     SubCheck('subprocess', run_subprocess_case, strategy=strat_case, enumerate_cases=enum_subprocess, quick=32, thorough=2500,
              rule="the same generator, each command line run as a real process (python -c 'from <tool module> import main; main()') and compared with the in-process verdict",
